@@ -101,7 +101,12 @@ type step struct {
 	Change *paramDraw
 }
 
-func compare(t *rapid.T, s *bftsim.Sim, m *mbft.Model, hist func() string) {
+// fataler is what compare needs of a test handle (rapid.T in generated runs, testing.T in the enumerating run).
+type fataler interface {
+	Fatalf(format string, args ...any)
+}
+
+func compare(t fataler, s *bftsim.Sim, m *mbft.Model, hist func() string) {
 	p, pc, c := s.Heights()
 	if p != m.MHP || pc != m.MHPC || c != m.MHC {
 		t.Fatalf("heights: code (prevoted=%d precommitted=%d certified=%d) model (%d %d %d)\n%s", p, pc, c, m.MHP, m.MHPC, m.MHC, hist())
